@@ -14,7 +14,7 @@ TECHNIQUE = 'exhaustive lengths x content classes x mask characters for mask(); 
 RULE = ('mask(): every length 10..40 x {digits, letters, the mask character itself, mixed Unicode} x 12 mask characters '
         'enumerated, lengths up to 99 via Hypothesis; result must have the same length, keep the first six and last four and '
         'hold the mask character everywhere between. Decoding: generated configurations put PAN or PAN-PREFIX on any '
-        'variable-length bit 2..127 next to digit-free text elements; PANs of 10..40 digits plus 99 (LLVAR) / 999 (LLLVAR); '
+        'variable-length bit 2..127 (with and without the explicit field_python_type "string") next to digit-free text elements; PANs of 10..40 digits plus 99 (LLVAR) / 999 (LLLVAR); '
         'through loads and through IpmReader (VBS and 1014) the element must equal the reference mask / first nine digits and '
         'the clear PAN must occur in no str value and (encoded) in no bytes value. Non-trivial = length not in {12, 16} or the '
         'processor on a bit other than 2; distinct by digest.')
@@ -97,7 +97,12 @@ def decode_cases(draw, tier):
     n = draw(st.one_of(st.sampled_from([10, 11, 12, 13, 15, 16, 19, 20, 21, 40, top]), uniform(10, 40)))
     pan = draw(st.one_of(st.text(alphabet='0123456789', min_size=n, max_size=n),
                          st.sampled_from(['1', '9', '0']).map(lambda d: d * n)))
-    config = {str(bit): {'field_type': ftype, 'field_length': 0, 'field_processor': proc}}
+    config = {str(bit): {'field_type': ftype, 'field_length': draw(st.sampled_from([0, 0, 19])), 'field_processor': proc}}
+    pt = draw(st.sampled_from([None, None, 'string', 'string']))
+    if pt:
+        config[str(bit)]['field_python_type'] = pt
+    if draw(st.booleans()):
+        config[str(bit)]['field_processor_config'] = ''
     msg = {'MTI': draw(st.sampled_from(['1240', '1644'])), 'DE%d' % bit: pan}
     others = draw(st.lists(uniform(2, 127).filter(lambda b: b != bit), max_size=4, unique=True))
     for b in others:
@@ -168,6 +173,8 @@ def sweep_decode(ctx):
             for ln in lengths:
                 config = {'2': {'field_type': ftype, 'field_length': 0, 'field_processor': proc},
                           '3': {'field_type': 'FIXED', 'field_length': 6}}
+                if ln % 2:
+                    config['2']['field_python_type'] = 'string'
                 pan = ('5412345678901234567' * 60)[:ln]
                 msg = {'MTI': '1240', 'DE2': pan, 'DE3': 'ABCDEF'}
                 n += 1
